@@ -76,4 +76,25 @@ mod verif_c11 {
             assert_eq!(m.iter().count(), n);
         }
     }
+
+    /// native witness: a map COLLECTED from a sequence of pairs (FromIterator) is the map obtained by inserting them one after the other -- also with
+    /// repeated keys (the later value wins, the key keeps its first slot), at sizes across the representation switches
+    #[test]
+    fn c11_wit_collect_is_successive_insertion() {
+        let seqs: Vec<Vec<(u8, u8)>> = vec![
+            vec![],
+            vec![(1, 1), (2, 2), (1, 3)],
+            vec![(5, 0), (5, 1), (5, 2)],
+            vec![(1, 1), (2, 2), (3, 3), (4, 4), (2, 9), (5, 5), (1, 8), (6, 6), (7, 7), (6, 0)],
+            (0..12u8).map(|i| (i % 7, i)).collect(),
+        ];
+        for pairs in seqs {
+            let m: CompactOrderedHashMap<u8, u8> = pairs.iter().cloned().collect();
+            let mut o: Vec<(u8, u8)> = Vec::new();
+            for (k, v) in pairs.iter() { oracle_insert(&mut o, *k, *v); }
+            agrees(&m, &o);
+            let it: Vec<(u8, u8)> = m.iter().map(|(k, v)| (*k, *v)).collect();
+            assert_eq!(it, o, "collect({:?}): iter() in first-insertion order with the latest values", pairs);
+        }
+    }
 }
